@@ -19,9 +19,27 @@ def zobs(N, q):
 
 
 def c_mcirc(ctx, args):
-    N, prog, t, seed = args
+    N, prog, t, seed = args[:4]
+    life = args[4] if len(args) > 4 else 'never'       # when compile() is called: never | end | early (before the first measure is added) | both | after_first
     M = ctx.model
-    c = NP.build_circuit(N, prog, 'Circuit')
+    if life == 'never':
+        c = NP.build_circuit(N, prog, 'Circuit')
+    else:
+        import pyclifford.circuit as CI_
+        c = CI_.Circuit(N)
+        seen_m = 0
+        for ins in prog:
+            if ins[0] == 1 and seen_m == 0 and life in ('early', 'both'):
+                c.compile()
+            if ins[0] == 0:
+                c.take(NP.mk_gate(ins[1]))
+            else:
+                c.measure(*[int(q) for q in ins[1]])
+                seen_m += 1
+                if seen_m == 1 and life == 'after_first':
+                    c.compile()
+        if life in ('end', 'both'):
+            c.compile()
     s = NP.STATE(t)
     NP.seed_numba(seed)
     try:
@@ -313,6 +331,8 @@ def run(ctx):
         t = gen.rtableau(rng, ctx.model, N, r=None if rng.random() < 0.5 else 0)
         seed = rng.randrange(10 ** 6)
         do(ctx, 'mcirc', [N, prog, t, seed], nontrivial=('m', it), sample=(it < 1))
+        if it % 2 == 0:
+            do(ctx, 'mcirc', [N, prog, t, seed, rng.choice(['end', 'early', 'both', 'after_first'])], nontrivial=('ml', it))
         do(ctx, 'order', [N, prog])
         tp = gen.rtableau(rng, ctx.model, N, r=0)
         do(ctx, 'backward', [N, prog, tp, seed, rng.choice(['recorded', 'supplied', 'flipped', 'flipped', 'wrong_length', 'rerun', 'rerun'])], nontrivial=('b', it))
